@@ -187,6 +187,20 @@ def genNaryKeys (N : Nat) (keys : List Nat) (root : Option Nat) : Outcome Nodes 
 def swapAt (keys : List Nat) (i j : Nat) : List Nat :=
   (keys.set i (keys.getD j 0)).set j (keys.getD i 0)
 
+/-- `ro.NewRosterWithRoot(root)` (tree.go:615-626) on the roster's keys: `none` (Go's `nil`) when the root is not a
+member (`Search` answers −1); otherwise a copy of the list in which the entries at position 0 and at the root's (first)
+position are exchanged — the documented way to get a tree whose root is the roster's first entry -/
+def withRootKeys (keys : List Nat) (k : Nat) : Option (List Nat) :=
+  match search keys k with
+  | none => none
+  | some r => some (swapAt keys 0 r)
+
+/-- `ro.NewRosterWithRoot(root).GenerateNaryTree(N)`: no roster — no tree (the caller tests for `nil`) -/
+def genWithRootRoster (N : Nat) (keys : List Nat) (k : Nat) : Outcome Nodes :=
+  match withRootKeys keys k with
+  | none => .noTree
+  | some keys' => genNaryKeys N keys' none
+
 /-- the node identifiers of a tree: `NewTreeNode` (tree.go:906-915) derives a node's id from its
 server's public key and from nothing else (injectively: `C13.c13_name_preimage_injective`) -/
 def nodeIds (keys : List Nat) (t : Nodes) : List Nat := t.map fun x => keys.getD x.1 0
@@ -283,6 +297,23 @@ def step (s : State) (toks : List String) : State × String :=
       if r = "x" then (s, showOutcome (genNary bn none n)) else
       match r.toNat? with
       | some r => if r < n then (s, showOutcome (genNary bn (some r) n)) else (s, "bad-op")
+      | none => (s, "bad-op")
+    | _, _ => (s, "bad-op")
+  -- `narywr <n> <N> <root index | x>`: `ro.NewRosterWithRoot(root)` over the roster of servers 0 … n−1 (`x`: a root that is
+  -- not a member), the order of the new list, then `GenerateNaryTree(N)` over it
+  | ["narywr", n, bn, r] =>
+    match n.toNat?, bn.toNat? with
+    | some n, some bn =>
+      if n = 0 then (s, "bad-op") else
+      let keys := List.range n
+      if r = "x" then (s, showOutcome (genWithRootRoster bn keys n)) else
+      match r.toNat? with
+      | some r =>
+        if r < n then
+          match withRootKeys keys r with
+          | some keys' => (s, "order=" ++ ",".intercalate (keys'.map toString) ++ " " ++ showOutcome (genWithRootRoster bn keys r))
+          | none => (s, "none")
+        else (s, "bad-op")
       | none => (s, "bad-op")
     | _, _ => (s, "bad-op")
   | ["binary", n] =>
